@@ -417,3 +417,8 @@ mod tests {
         assert_eq!(dec_string_id.num, stream_id.num);
     }
 }
+
+#[cfg(kani)]
+pub(crate) mod verif {
+    include!(concat!(env!("LIBP2P_VERIF"), "/hooks/mplex_codec.rs"));
+}
